@@ -7,7 +7,7 @@ from engine import sorts as S
 from engine import values as Vl
 from engine import source
 from engine.core import Raise_, Return_, PathEnd, Unsupported, ContractMisfit
-from engine.values import V, NONE, PyStr, PyTuple, Obj, ClassRef, FuncRef, ModuleRef, Builtin, BoundMethod
+from engine.values import V, NONE, PyStr, PyTuple, Obj, ClassRef, FuncRef, ModuleRef, Builtin, BoundMethod, Closure
 
 
 _ELEMS = {}
@@ -45,6 +45,8 @@ class CallMixin:
       return self.construct(fn, args, kwargs, node)
     if isinstance(fn, FuncRef):
       return self.call_func(fn, args, kwargs, node)
+    if isinstance(fn, Closure):
+      return self.call_closure(fn, args, kwargs, node)
     if isinstance(fn, ModuleRef):
       raise Unsupported('call of unmodelled %s (line %s)' % (
           fn.dotted, getattr(node, 'lineno', '?')))
@@ -205,6 +207,28 @@ class CallMixin:
     raise Unsupported('call to %s:%s has neither contract nor inline mark (line %s)' % (
         fr.module.relpath, fr.qualname, getattr(node, 'lineno', '?')))
 
+  def call_closure(self, cl, args, kwargs, node):
+    fdef = cl.fdef
+    names = [a.arg for a in fdef.args.args]
+    if kwargs or fdef.args.vararg or fdef.args.kwarg or fdef.args.kwonlyargs or len(args) != len(names):
+      raise Unsupported('call shape of local function %s (line %s)' % (fdef.name, getattr(node, 'lineno', '?')))
+    saved = self.env
+    self.env = dict(saved)          # reads see the enclosing variables as they are now
+    for n, v in zip(names, args):
+      self.env[n] = v
+    assigned = {x.id for b in fdef.body for x in ast.walk(b) if isinstance(x, ast.Name) and isinstance(x.ctx, ast.Store)}
+    self.depth += 1
+    try:
+      self.exec_block(fdef.body)
+      return NONE
+    except Return_ as r:
+      return r.value
+    finally:
+      self.depth -= 1
+      heap_now = {hn: hv for hn, hv in self.env.items() if hn.startswith('$H.')}
+      self.env = saved
+      self.env.update(heap_now)
+
   def call_inline(self, fr, fdef, bound):
     saved = (self.env, self.cur_module, self.cur_contract, self.loop_ordinals, self.aliases)
     self.env = dict(bound)
@@ -285,9 +309,46 @@ class CallMixin:
         raise Unsupported('contract result kind')
       self.env['result'] = res
       self.spec_env_old = dict(env)
-      for r in c.ensures:
-        self.assume(self.spec(r[4:] if r.startswith('aux:') else r))
+      # parameters the callee mutates in place: a fresh post-state value, constrained by the ensures only
+      # (old(p) is the value at the call); written back to the caller's lvalue afterwards
+      post = {}
+      for pn in getattr(c, 'mutates', ()):
+        ps = c.params[pn]
+        if not isinstance(ps, S.Sort):
+          raise Unsupported('%s: mutated parameter %s must have a value sort' % (c.label, pn))
+        nv = V(ps, ps.fresh('post_' + pn))
+        self.assume_wf(nv)
+        self.env[pn] = nv
+        post[pn] = nv
+      saved_old = getattr(self, 'call_old_env', None)
+      if post:
+        self.call_old_env = dict(self.spec_env_old)
+      try:
+        for r in c.ensures:
+          self.assume(self.spec(r[4:] if r.startswith('aux:') else r))
+      finally:
+        self.call_old_env = saved_old
       self.used_contracts.add(c.label)
+      if post:
+        self.env, self.cur_module = saved_env, saved_mod
+        fdef_ = source.load(self.repo, c.file).func(c.qualname)
+        pnames = [a.arg for a in fdef_.args.posonlyargs + fdef_.args.args]
+        for pn, nv in post.items():
+          lv = None
+          if isinstance(node, ast.Call):
+            if pnames and pn == pnames[0] and isinstance(node.func, ast.Attribute) and not isinstance(self.eval(node.func.value), (ClassRef, ModuleRef)):
+              lv = node.func.value
+            else:
+              off = 1 if (pnames and isinstance(node.func, ast.Attribute) and not isinstance(self.eval(node.func.value), (ClassRef, ModuleRef))) else 0
+              idx = pnames.index(pn) - off if pn in pnames else -1
+              if 0 <= idx < len(node.args):
+                lv = node.args[idx]
+              for kw in node.keywords:
+                if kw.arg == pn:
+                  lv = kw.value
+          if lv is None:
+            raise Unsupported('%s: cannot find the caller lvalue of mutated parameter %s' % (c.label, pn))
+          self.store_back(lv, nv)
       return res
     finally:
       self.env, self.cur_module = saved_env, saved_mod
@@ -345,7 +406,7 @@ class CallMixin:
       return V(s.elem, x)
     if name in ('union', 'difference', 'intersection'):
       o = args[0]
-      if isinstance(o, V) and isinstance(o.sort, S.Seq):
+      if (isinstance(o, V) and isinstance(o.sort, S.Seq)) or (isinstance(o, PyTuple) and o.items):
         o = self.to_set(o)
       o = self.coerce(o, s)
       x = s.elem.fresh('x')
@@ -450,6 +511,12 @@ class CallMixin:
     """set(iterable)."""
     if isinstance(v, PyTuple) and not v.items:
       return PyTuple([])
+    if isinstance(v, PyTuple) and all(isinstance(i, PyStr) for i in v.items):
+      # a literal tuple of strings (module-level constant sets): membership is a finite disjunction
+      ss = S.SetOf(S.STR)
+      x = S.STR.fresh('x')
+      lits = [self.coerce(i, S.STR).t for i in v.items]
+      return V(ss, z3.Lambda([x], z3.Or(*[x == l for l in lits])))
     if isinstance(v, V):
       s = v.sort
       if isinstance(s, S.SetOf):
